@@ -18,7 +18,7 @@ RULE = (
 )
 ASSUMPTIONS = ["reference enumeration (numpy argwhere over the mask computed from the same filter text in numpy)"]
 BATCH = {"quick": 2, "thorough": 4}
-FLOORS = {"quick": {"spaces_checked": 700, "combinations_compared": 3000}, "thorough": {"spaces_checked": 5000, "combinations_compared": 30000}}
+FLOORS = {"quick": {"spaces_checked": 700, "combinations_compared": 3000}, "thorough": {"spaces_checked": 2000, "combinations_compared": 15000}}
 
 SHAPES = [((2,), (2,)), ((2,), (3,)), ((3,), (2,)), ((2, 2), (2,)), ((2,), (2, 2))]
 
